@@ -526,6 +526,61 @@ func bigWire() []byte {
 	return e.b
 }
 
+// a name that starts at or just below offset 0x3fff in the compressed encoding and runs past it, whose
+// suffixes are used again later: only the labels that begin at an offset <= 0x3fff may be pointed at
+func straddleWire(d int) []byte {
+	e := &enc{offs: map[string]int{}}
+	e.u16(rng.Intn(65536))
+	e.u16(0x8180)
+	e.u16(1)
+	cntAt := len(e.b)
+	e.u16(0)
+	e.u16(0)
+	e.u16(0)
+	e.name([]string{"big", "test"}, false)
+	e.u16(255)
+	e.u16(1)
+	// compressed size so far: 12 + 10 + 4; every padding record takes 2 (pointer) + 10 + l there
+	target := 0x3fff - d
+	off, n := 26, 0
+	for off < target {
+		l := 200 + rng.Intn(60)
+		if rest := target - off - 12; rest < l+12+1 { // the last one (or two) land exactly on the target
+			if rest < 0 {
+				panic("straddleWire: layout")
+			}
+			l = rest
+		}
+		e.name([]string{"big", "test"}, true)
+		e.u16(65280 + n%3)
+		e.u16(1)
+		e.u32(300)
+		e.u16(l)
+		for j := 0; j < l; j++ {
+			e.b = append(e.b, byte(n))
+		}
+		off += 12 + l
+		n++
+	}
+	rec := func(nm []string, k int) {
+		e.name(nm, false)
+		e.u16(1)
+		e.u16(1)
+		e.u32(60)
+		e.u16(4)
+		e.b = append(e.b, 10, 2, byte(d), byte(k))
+		n++
+	}
+	a, b := randLabel(), randLabel()
+	rec([]string{"aaaa", a, b, "example"}, 0) // starts at target
+	rec([]string{a, b, "example"}, 1)
+	rec([]string{"www", b, "example"}, 2)
+	rec([]string{"x", "example"}, 3)
+	rec([]string{"aaaa", a, b, "example"}, 4)
+	binary.BigEndian.PutUint16(e.b[cntAt:], uint16(n))
+	return e.b
+}
+
 // long names: 253..257 octets
 func longNameWire() []byte {
 	e := &enc{offs: map[string]int{}}
@@ -611,7 +666,11 @@ func main() {
 		dnsmsg.ReleaseMsg(m)
 	}
 	for i := 0; i < *big; i++ {
-		m := doUnpack(bigWire())
+		w := bigWire()
+		if i%2 == 1 {
+			w = straddleWire((i / 2) % 14)
+		}
+		m := doUnpack(w)
 		if m == nil {
 			continue
 		}
